@@ -6,6 +6,7 @@ import (
 	"fmt"
 	"runtime/debug"
 	"strings"
+	"sync/atomic"
 	"time"
 
 	"verif/core"
@@ -52,23 +53,64 @@ type Case struct {
 
 type failure struct{ sig, what string }
 
+// partBudget: end of the current part's share of the wall-clock budget.
+type partBudget struct {
+	end time.Time
+	cut atomic.Bool
+}
+
+var cur = &partBudget{}
+
+// expired: the run's budget or the current part's share of it is used up.
+func expired(r *core.Run) bool {
+	if r.Expired() {
+		return true
+	}
+	if time.Now().After(cur.end) {
+		cur.cut.Store(true)
+		return true
+	}
+	return false
+}
+
 func run(r *core.Run) {
 	r.Assume("the host natives of the harness propagate errors the documented way (panic(err) for an error returned by a Callable / RunProgram); a native that swallows an uncatchable error is outside the property")
 	r.Assume("a generator or async function whose body was aborted by an uncatchable error is not resumed afterwards (ECMAScript does not define its state); the stateful shapes replace such a generator before its next use")
 	r.Assume("entry kinds under Runtime.Try (Object.Get, ToNumber, ForOf, an ExportTo'd func without error result) are followed by an empty RunProgram so that pending promise jobs run, as the next host call would do")
 	debug.SetGCPercent(400) // thousands of short-lived runtimes: trade memory (small here) for fewer collections
 	secs := map[string]float64{}
-	timed := func(name string, f func(*core.Run) bool) bool {
-		t0 := time.Now()
-		ok := f(r)
-		secs[name] = float64(int(time.Since(t0).Seconds()*10)) / 10
-		return ok
+	type part struct {
+		name   string
+		f      func(*core.Run) bool
+		weight float64
 	}
-	complete := timed("regression", regression)
-	complete = timed("single", single) && complete
-	complete = timed("histories", histories) && complete
+	parts := []part{{"regression", regression, 0}, {"single", single, 3}, {"histories", histories, 3}}
 	if r.Thorough() {
-		complete = timed("pairs", pairs) && complete
+		parts = append(parts, part{"pairs", pairs, 4})
+	}
+	complete := true
+	var cutParts []string
+	for i, p := range parts {
+		// thorough tier: every part gets its share of what is left of the budget, so that a capped run has still
+		// executed every part (each part enumerates its bounds upward); quick tier: no shares, the parts must complete
+		cur = &partBudget{end: r.Deadline}
+		if r.Thorough() && p.weight > 0 {
+			rest := 0.0
+			for _, q := range parts[i:] {
+				rest += q.weight
+			}
+			cur.end = time.Now().Add(time.Duration(float64(time.Until(r.Deadline)) * p.weight / rest))
+		}
+		t0 := time.Now()
+		ok := p.f(r)
+		secs[p.name] = float64(int(time.Since(t0).Seconds()*10)) / 10
+		if !ok || cur.cut.Load() {
+			complete = false
+			cutParts = append(cutParts, p.name)
+		}
+	}
+	if len(cutParts) > 0 {
+		r.Set("parts_cut_by_budget", cutParts)
 	}
 	r.Set("part_seconds", secs)
 	r.Exhaustive(complete)
@@ -78,6 +120,14 @@ func replay(r *core.Run, raw json.RawMessage) {
 	var c Case
 	if err := json.Unmarshal(raw, &c); err != nil {
 		r.Violation("replay|bad", err.Error(), nil)
+		return
+	}
+	if c.Part == "route" && len(c.History) == 1 && len(c.History[0].Faults) == 1 {
+		// differential between the native failure and the JS throw at the same probe
+		r.Eval(2)
+		if k := c.History[0]; routeFails(k) {
+			r.Violation("route-differs|"+k.Faults[0].Kind+"|"+boundary(k.Entry)+"|"+family(k.Shape), c.Detail, c)
+		}
 		return
 	}
 	for _, f := range judgeHistory(c.History, r) {
